@@ -666,12 +666,17 @@ def covered_view(raw, sec_type):
             view['protected'] = None
             view['tag'] = None
             view['keyinfo'] = None
+            view['iv'] = None
+            view['wrapped'] = None
             if res is not None and len(res) == 1:
                 (code, val) = res[0]
                 view['code'] = code
                 try:
                     msg = cbor2.loads(val)
                     view['protected'] = msg[0]
+                    view['iv'] = msg[1].get(5) if isinstance(msg[1], dict) else None
+                    recips = msg[4] if code == 97 and len(msg) > 4 else (msg[3] if code == 96 and len(msg) > 3 else [])
+                    view['wrapped'] = [rcp[2] if isinstance(rcp, list) and len(rcp) > 2 else None for rcp in recips] if isinstance(recips, list) else None
                     if code in (17, 18, 97):
                         view['tag'] = msg[3]
                         view['keyinfo'] = [msg[1], msg[4:], addl_un, msg[2], asb['flags'], asb['params'] is None]
@@ -684,7 +689,7 @@ def covered_view(raw, sec_type):
 
 
 COVERED_KEYS = ('target', 'source', 'scope', 'addl_protected', 'ctx_id', 'payload', 'bound', 'n_results', 'code',
-                'protected', 'tag')
+                'protected', 'tag', 'iv', 'wrapped')
 
 
 def diff_covered(orig_raw, alt_raw, sec_type):
